@@ -1,13 +1,8 @@
-mod alloc_audit;
-mod comps;
+pub use hcore::{alloc_audit, comps, family, gen_queries, gen_reg10, gen_reg4, gen_reg8, rng, sched_types};
 mod core;
-mod family;
-mod gen_reg4;
-mod gen_reg10;
-mod gen_reg8;
-mod gen_queries;
+mod gen_sched;
+mod sched;
 mod raw_ops;
-mod rng;
 mod serde_ops;
 
 use crate::core::*;
